@@ -69,6 +69,7 @@ class FsmSim:
         tsubmit.mail_out = lambda msg: None
         self.automatic_ok = True
         self.spawned = []
+        self.requests = []
 
         def automatic(**k):
             # the git steps succeed or fail as the workload says; on success the compliance check is
@@ -108,6 +109,7 @@ class FsmSim:
         self.farm.clear()
         self.farm.ARCHIVE = False
         self.sch.que = []
+        self.requests = []
         fsm = state.FSM()
         sim = self
         fsm._security = lambda: None  # pylint: disable=protected-access
@@ -184,6 +186,9 @@ class FsmSim:
         req = FakeRequest()
         cleared = []
         proc = mod.Process(f'changeset{self.rev}', lambda: cleared.append(1), req, priority)
+        req.cleared = cleared
+        req.what = (priority, ok, api)
+        self.requests.append(req)
         proc.step_0()
         self.drain_reactor()
         # the spawned compliance process ends (successfully): VerifyHandler.processEnded
